@@ -138,6 +138,7 @@ def rule_gate(ck):
                 if len(st) != 1:
                     raise AnalysisError("WebSocketHandler.get: token container %s assigned %d times" % (cont.id, len(st)))
                 src = st[0].value
+            src = _resolve_names(g, src)
             ck.ob(R, g, t.ast, t.ast.left.value == "upgrade" and _token_list(src, "Connection"), "'upgrade' is looked up among the comma-separated, stripped, lower-cased tokens of the Connection header")
             good = "true" if isinstance(t.ast.ops[0], ast.In) else "false"
             ck.ob(R, g, t.ast, _only_via(cfg, anode, [(t.id, good)]), "accept_connection is reachable only through the passing edge of the Connection test")
@@ -220,6 +221,27 @@ def rule_gate(ck):
     ck.floor(R, n_ret, 1, "protocol-returning paths in get_websocket_protocol")
 
 
+def _resolve_names(fi, e, depth=4):
+    """``e`` with local names that are bound exactly once in ``fi`` replaced by their defining expression."""
+    import copy
+
+    class T(ast.NodeTransformer):
+        def visit_Name(self, node):
+            if isinstance(node.ctx, ast.Load):
+                sts = q.stores_to(fi.node, node.id)
+                if len(sts) == 1 and getattr(sts[0], "value", None) is not None and isinstance(sts[0], (ast.Assign, ast.AnnAssign)) and node.id not in fi.params():
+                    return copy.deepcopy(sts[0].value)
+            return node
+
+    e = copy.deepcopy(e)
+    for _ in range(depth):
+        new = T().visit(copy.deepcopy(e))
+        if ast.dump(new) == ast.dump(e):
+            break
+        e = new
+    return e
+
+
 def _token_list(e, header) -> bool:
     """``e`` builds the element-wise stripped+lowered tokens of ``<h>.get(header).split(",")``."""
     split = [c for c in ast.walk(e) if isinstance(c, ast.Call) and isinstance(c.func, ast.Attribute) and c.func.attr == "split" and c.args and q.is_const(c.args[0], ",") and _hdr_get(c.func.value, header)]
@@ -259,33 +281,30 @@ def rule_required(ck):
         if h is not None:
             ck.ob(R, ac, h, not any(q.is_call(x, "self._accept_connection") for st in h.body for x in ast.walk(st)), "the rejecting handler does not accept")
     hw = ck.func(W, P13 + "._handle_websocket_headers")
-    names = set()
-    for x in q.walk_body(hw.node):
-        if isinstance(x, (ast.Tuple, ast.List, ast.Set)) and x.elts and all(isinstance(e, ast.Constant) and isinstance(e.value, str) for e in x.elts):
-            names |= {e.value.lower() for e in x.elts}
-    need = {"host", "sec-websocket-key", "sec-websocket-version"}
-    ck.ob(R, hw, hw.node, need <= names, "Host, Sec-WebSocket-Key and Sec-WebSocket-Version are all required (required set %s)" % sorted(names), construct="required %s" % sorted(names))
-    raises = [n for n in hw.cfg.stmt_nodes(lambda n: n.kind == "stmt" and isinstance(n.ast, ast.Raise) and "ValueError" in q.unparse(n.ast))]
-    ck.ob(R, hw, hw.node, len(raises) >= 1, "a missing required header raises ValueError", construct="raises ValueError: %d" % len(raises))
-    facts = must_facts(hw.cfg)
-    for rn in raises:
-        ok = False
-        for (txt, pol) in facts[rn.id]:
-            e = ast.parse(txt, mode="eval").body
-            if pol is False and q.is_call(e, "all") and len(e.args) == 1:
-                a = e.args[0]
-                it = None
-                if q.is_call(a, "map") and len(a.args) == 2 and isinstance(a.args[0], ast.Lambda):
-                    body, var, it = a.args[0].body, a.args[0].args.args[0].arg, a.args[1]
-                elif isinstance(a, (ast.GeneratorExp, ast.ListComp)) and len(a.generators) == 1 and isinstance(a.generators[0].target, ast.Name):
-                    body, var, it = a.elt, a.generators[0].target.id, a.generators[0].iter
-                if it is not None and isinstance(body, ast.Call) and isinstance(body.func, ast.Attribute) and body.func.attr == "get" and body.args and q.dotted(body.args[0]) == var and "headers" in (q.dotted(body.func.value) or ""):
-                    src = it
-                    if isinstance(it, ast.Name):
-                        st = q.stores_to(hw.node, it.id)
-                        src = st[0].value if len(st) == 1 else it
-                    ok = isinstance(src, (ast.Tuple, ast.List, ast.Set)) and {e.value.lower() for e in src.elts if isinstance(e, ast.Constant)} >= need
-        ck.ob(R, hw, rn.ast, ok, "ValueError is raised exactly when not all required headers have a non-empty value in the request")
+    # decided by abstract interpretation of the function for every presence pattern of the three headers
+    from ..x_absint import Evaluator, HeaderMap, Obj
+    import itertools
+
+    hparam = [p for p in hw.params() if p != "self"][0]
+    need = ("Host", "Sec-WebSocket-Key", "Sec-WebSocket-Version")
+    bad = []
+    n_cases = 0
+    for combo in itertools.product((None, "", "v"), repeat=3):
+        d = {k: v for k, v in zip(need, combo) if v is not None}
+        d["Upgrade"] = "websocket"
+        env = {"self": Obj("self"), hparam: Obj("handler", request=Obj("request", headers=HeaderMap(d)))}
+        outs = Evaluator().run(hw.node, env)
+        kinds = {(o.kind, o.value if o.kind == "raise" else None) for o in outs}
+        n_cases += 1
+        want_raise = any(v in (None, "") for v in combo)
+        if len(kinds) != 1:
+            raise AnalysisError("_handle_websocket_headers: outcome for header pattern %r is not determined by the abstract interpretation (%s)" % (combo, sorted(map(repr, kinds))))
+        (kind_, val_), = kinds
+        ok = (kind_ == "raise" and val_ == "ValueError") if want_raise else (kind_ in ("fall", "return"))
+        if not ok:
+            bad.append((combo, kind_, val_))
+    ck.ob(R, hw, hw.node, not bad, "all %d presence patterns (absent / empty / set) of Host, Sec-WebSocket-Key, Sec-WebSocket-Version: ValueError exactly when one is missing or empty%s" % (n_cases, (" - e.g. %r -> %s %s" % bad[0]) if bad else ""),
+          construct="required headers: %s" % ("ok" if not bad else "pattern %r -> %s" % (bad[0][0], bad[0][1])))
 
 
 def rule_accept_value(ck):
@@ -295,37 +314,62 @@ def rule_accept_value(ck):
     body = [st for st in cv.node.body if not (isinstance(st, ast.Expr) and isinstance(st.value, ast.Constant))]
     if any(isinstance(st, (ast.If, ast.For, ast.While, ast.Try, ast.With)) for st in body):
         raise AnalysisError("compute_accept_value is no longer straight-line code")
+    mod = ck.repo.module(W)
+
+    def res(e, depth=0):
+        """follow local single assignments and module-level constants"""
+        while isinstance(e, ast.Name) and depth < 6:
+            depth += 1
+            sts = q.stores_to(cv.node, e.id)
+            if len(sts) == 1 and getattr(sts[0], "value", None) is not None and e.id != kp:
+                e = sts[0].value
+            elif not sts and e.id in mod.assigns:
+                e = mod.assigns[e.id]
+            else:
+                break
+        return e
+
     hobj = None
+    sha_calls = [c for st in body for c in q.calls(st) if q.is_call(c, "hashlib.sha1")]
     fed = []
+    for c in sha_calls:
+        if c.args:
+            fed.append(c.args[0])
+    for st in body:
+        if isinstance(st, (ast.Assign, ast.AnnAssign)) and getattr(st, "value", None) is not None and q.is_call(st.value, "hashlib.sha1"):
+            tgt = q.assigned_paths(st)
+            hobj = next(iter(tgt)) if tgt else None
     for st in body:
         for c in q.calls(st):
-            if q.is_call(c, "hashlib.sha1"):
-                tgt = q.assigned_paths(st)
-                hobj = next(iter(tgt)) if tgt else None
-                if c.args:
-                    fed.append(c.args[0])
-            elif isinstance(c.func, ast.Attribute) and c.func.attr == "update" and hobj and q.dotted(c.func.value) == hobj and c.args:
+            if isinstance(c.func, ast.Attribute) and c.func.attr == "update" and hobj and q.dotted(c.func.value) == hobj and c.args:
                 fed.append(c.args[0])
-    ck.ob(R, cv, cv.node, hobj is not None, "the accept value is a SHA-1 (hashlib.sha1)", construct="sha1 used: %s" % (hobj is not None))
+    ck.ob(R, cv, cv.node, len(sha_calls) == 1, "the accept value is a SHA-1 (hashlib.sha1)", construct="sha1 used: %s" % (len(sha_calls) == 1))
     parts = []
     for a in fed:
-        parts.extend(_concat_parts(a))
+        for p_ in _concat_parts(res(a)):
+            parts.append(res(p_))
 
     def is_key(e):
         if isinstance(e, ast.Name) and e.id == kp:
             return True
         return isinstance(e, ast.Call) and q.call_attr(e) in ("utf8", "bytes") and e.args and isinstance(e.args[0], ast.Name) and e.args[0].id == kp
 
+    if not all(is_key(p_) or isinstance(p_, ast.Constant) for p_ in parts) or not parts:
+        raise AnalysisError("compute_accept_value: the hash input %s is not made of the key and constants only" % [q.unparse(p_) for p_ in parts])
     ck.ob(R, cv, cv.node, len(parts) == 2 and is_key(parts[0]) and isinstance(parts[1], ast.Constant), "the hash is fed the key first and then one constant (got %s)" % [q.unparse(p) for p in parts], construct="hash input %s" % [q.unparse(p) if not isinstance(p, ast.Constant) else "<const>" for p in parts])
     consts = [p for p in parts if isinstance(p, ast.Constant)]
     for c in consts:
         v = c.value.encode("ascii") if isinstance(c.value, str) else c.value
-        ck.ob(R, cv, c, v == GUID, "the constant is the RFC 6455 GUID 258EAFA5-E914-47DA-95CA-C5AB0DC85B11")
+        ck.ob(R, cv, cv.node, v == GUID, "the constant is the RFC 6455 GUID 258EAFA5-E914-47DA-95CA-C5AB0DC85B11", construct="GUID constant: %s" % (v == GUID))
     rets = [st for st in body if isinstance(st, ast.Return)]
     okr = False
     for r in rets:
         b64 = [c for c in ast.walk(r) if q.is_call(c, "base64.b64encode")]
-        okr = len(b64) == 1 and len(b64[0].args) == 1 and isinstance(b64[0].args[0], ast.Call) and isinstance(b64[0].args[0].func, ast.Attribute) and b64[0].args[0].func.attr == "digest" and q.dotted(b64[0].args[0].func.value) == hobj
+        if len(b64) == 1 and len(b64[0].args) == 1:
+            dg = res(b64[0].args[0])
+            if isinstance(dg, ast.Call) and isinstance(dg.func, ast.Attribute) and dg.func.attr == "digest" and not dg.args:
+                recv = dg.func.value
+                okr = (hobj is not None and q.dotted(recv) == hobj) or (len(sha_calls) == 1 and recv is sha_calls[0])
     ck.ob(R, cv, cv.node, okr, "the result is the base64 encoding of the binary digest", construct="b64(digest): %s" % okr)
     # server side: header set from the request key
     ch = ck.func(W, P13 + "._challenge_response")
@@ -439,42 +483,83 @@ def _resolve_straightline(fi):
     return ret
 
 
+# models of the two pure helpers the default origin check may use (written from their documentation:
+# urllib.parse.urlsplit netloc extraction; httputil.split_host_and_port = rightmost ":<digits>")
+def _model_urlparse(st, url, *rest):
+    from ..x_absint import Obj, UNK
+
+    if not isinstance(url, str):
+        return UNK
+    scheme, sep, rest_ = url.partition("://")
+    if not sep:
+        scheme, rest_ = "", url
+        netloc = ""
+    else:
+        cut = len(rest_)
+        for ch in "/?#":
+            k = rest_.find(ch)
+            if k != -1:
+                cut = min(cut, k)
+        netloc = rest_[:cut]
+    hostport = netloc.rpartition("@")[2]
+    host, _c, port = hostport.rpartition(":") if (":" in hostport and hostport.rpartition(":")[2].isdigit()) else (hostport, "", "")
+    return Obj("ParseResult", scheme=scheme.lower(), netloc=netloc, hostname=(host.lower() or None), port=(int(port) if port else None))
+
+
+def _model_split_host_and_port(st, netloc):
+    from ..x_absint import UNK
+
+    if not isinstance(netloc, str):
+        return UNK
+    h, c, p = netloc.rpartition(":")
+    if c and h and p.isdigit() and p.isascii():
+        return (h, int(p))
+    return (netloc, None)
+
+
+ORIGIN_SAMPLES = [
+    ("http://example.com", "example.com", True),
+    ("http://example.com:8888", "example.com:8888", True),
+    ("https://EXAMPLE.com:8888", "example.com:8888", True),
+    ("http://example.com/path?q=1", "example.com", True),
+    ("http://example.com", "example.com:8888", False),
+    ("http://example.com:8888", "example.com", False),
+    ("http://example.com:8889", "example.com:8888", False),
+    ("http://example.com:8888", "example.com:88", False),
+    ("http://evil.com", "example.com", False),
+    ("http://evil.com:8888", "example.com:8888", False),
+    ("http://evilexample.com", "example.com", False),
+    ("http://example.com.evil.com", "example.com", False),
+    ("http://example.co", "example.com", False),
+]
+
+
 def rule_origin(ck):
+    """Default check_origin decided by abstract interpretation over a table of (Origin, Host) pairs."""
     R = "C17.origin"
+    from ..x_absint import Evaluator, HeaderMap, Obj, UNK
+
     co = ck.func(W, "WebSocketHandler.check_origin")
     op = [p for p in co.params() if p != "self"][0]
-    ret = _resolve_straightline(co)
-    cp = q.compare_parts(ret)
-    ck.ob(R, co, co.node, cp is not None and isinstance(cp[1], ast.Eq), "the default origin check returns one equality comparison (no prefix/suffix/containment test)", construct="shape: %s" % (type(cp[1]).__name__ if cp else type(ret).__name__))
-    if cp is None:
-        return
-    l, _op, r = cp
-
-    def strip_lower(e):
-        n = 0
-        while isinstance(e, ast.Call) and isinstance(e.func, ast.Attribute) and e.func.attr in ("lower", "casefold") and not e.args:
-            e = e.func.value
-            n += 1
-        return e, n
-
-    def is_origin_netloc(e):
-        e, nl = strip_lower(e)
-        return isinstance(e, ast.Attribute) and e.attr == "netloc" and isinstance(e.value, ast.Call) and q.call_attr(e.value) in ("urlparse", "urlsplit") and len(e.value.args) == 1 and q.dotted(e.value.args[0]) == op, nl
-
-    def is_host(e):
-        e, _nl = strip_lower(e)
-        return _hdr_get(e, "Host") and "request.headers" in (q.dotted(e.func.value) or "")
-
-    (lo, ln), (ro, rn) = is_origin_netloc(l), is_origin_netloc(r)
-    if lo:
-        o_ok, lowered, h = True, ln, r
-    elif ro:
-        o_ok, lowered, h = True, rn, l
-    else:
-        o_ok, lowered, h = False, 0, None
-    ck.ob(R, co, co.node, o_ok, "one side of the comparison is the netloc (host and port) of the parsed Origin value", construct="origin side netloc: %s" % o_ok)
-    ck.ob(R, co, co.node, o_ok and lowered >= 1, "the origin netloc is lower-cased before the comparison", construct="origin lowered: %s" % (lowered >= 1))
-    ck.ob(R, co, co.node, h is not None and bool(is_host(h)), "the other side is the request's Host header", construct="host side: %s" % (h is not None and bool(is_host(h))))
+    funcs = {}
+    for nm in ("urlparse", "urlsplit", "urllib.parse.urlparse", "urllib.parse.urlsplit"):
+        funcs[nm] = _model_urlparse
+    for nm in ("httputil.split_host_and_port", "split_host_and_port", "tornado.httputil.split_host_and_port"):
+        funcs[nm] = _model_split_host_and_port
+    bad = []
+    for origin, host, want in ORIGIN_SAMPLES:
+        env = {"self": Obj("self", request=Obj("request", headers=HeaderMap({"Host": host, "Origin": origin}), host=host)), op: origin}
+        outs = Evaluator(funcs=funcs).run(co.node, env)
+        vals = set()
+        for o in outs:
+            if o.kind != "return" or o.value is UNK or not isinstance(o.value, (bool, type(None), str, int)):
+                raise AnalysisError("check_origin: result for Origin %r / Host %r is not determined by the abstract interpretation (%r)" % (origin, host, o))
+            vals.add(bool(o.value))
+        if vals != {want}:
+            bad.append((origin, host, sorted(vals)))
+    for origin, host, want in ORIGIN_SAMPLES:
+        got = [b for b in bad if b[0] == origin and b[1] == host]
+        ck.ob(R, co, co.node, not got, "default check_origin(%r) with Host %r -> %s (host and port of the Origin must equal the Host header)" % (origin, host, want), construct="origin %s vs host %s -> want %s" % (origin, host, want))
 
 
 def rule_extensions(ck):
@@ -485,7 +570,15 @@ def rule_extensions(ck):
     tests = cfg.stmt_nodes(lambda n: n.kind == "test")
 
     def gate_edges(fi_tests):
-        name_t = [(t.id, "true") for t in fi_tests if isinstance(t.ast, ast.Compare) and len(t.ast.ops) == 1 and isinstance(t.ast.ops[0], ast.Eq) and any(q.is_const(x, "permessage-deflate") for x in (t.ast.left, t.ast.comparators[0]))]
+        name_t = []
+        for t in fi_tests:
+            ct, cp = canon_fact(t.ast, True)
+            try:
+                ce = ast.parse(ct, mode="eval").body
+            except SyntaxError:
+                continue
+            if isinstance(ce, ast.Compare) and len(ce.ops) == 1 and isinstance(ce.ops[0], ast.Eq) and any(q.is_const(x, "permessage-deflate") for x in (ce.left, ce.comparators[0])):
+                name_t.append((t.id, "true" if cp else "false"))  # the edge on which the name equals permessage-deflate
         comp_t = _edges_where(fi_tests, "self._compression_options is None", False) + _edges_where(fi_tests, "self._compression_options", True)
         return name_t, comp_t
 
@@ -653,7 +746,7 @@ def run(ck):
     ck.rule("C17.gate", "WebSocketHandler.get: accept_connection is reachable only through the passing edges of the Upgrade, Connection-token, origin and version tests (edge removal on the CFG)")
     ck.rule("C17.required-headers", "_accept_connection only after _handle_websocket_headers accepted Host/key/version; ValueError answers 400 without accepting")
     ck.rule("C17.accept-value", "accept value = base64(SHA-1(key + RFC GUID)); server sends it with 101/Upgrade/Connection; client compares by equality against its own key")
-    ck.rule("C17.origin", "default check_origin: lower-cased netloc of the Origin equals the Host header")
+    ck.rule("C17.origin", "default check_origin, evaluated for a table of (Origin, Host) pairs: accepted exactly when host and port of the Origin equal the Host header (case-insensitive host; no defaulting of a missing port; no prefix/suffix match)")
     ck.rule("C17.extensions", "permessage-deflate is answered/accepted only when offered and enabled; other extensions and unknown parameters are refused")
     ck.rule("C17.no-assert-validation", "the client validates the handshake response with tests that raise, never with assert")
     ck.rule("C17.subprotocol-offered", "the client accepts only a subprotocol it offered; the server announces only the application's selection among the offered ones")
@@ -707,6 +800,7 @@ MUTANTS = [
     ("client compares the accept value with `in`", _in(P13 + "._process_server_headers", replace_expr(lambda n: isinstance(n, ast.Compare) and "Sec-Websocket-Accept" in _src(n), lambda n: ast.Compare(left=n.left, ops=[ast.In()], comparators=n.comparators))), "C17.accept-value"),
     ("server derives the accept value from the wrong header", _in(P13 + "._challenge_response", replace_expr(lambda n: isinstance(n, ast.Constant) and n.value == "Sec-Websocket-Key", lambda n: ast.Constant(value="Sec-Websocket-Version"))), "C17.accept-value"),
     ("client validates against a fresh key", _in("WebSocketClientConnection.headers_received", replace_expr(lambda n: isinstance(n, ast.Attribute) and n.attr == "key", lambda n: parse_expr("base64.b64encode(os.urandom(16))"))), "C17.accept-value"),
+    ("seeded C17-adv2: an Origin without a port inherits the Host header's port", _in("WebSocketHandler.check_origin", lambda root: _origin_port_default(root)), "C17.origin"),
     ("default origin check: suffix match", _in("WebSocketHandler.check_origin", replace_stmt(lambda st: isinstance(st, ast.Return), lambda st: [parse_stmt("return origin.endswith(host)")])), "C17.origin"),
     ("default origin check ignores the port (hostname)", _in("WebSocketHandler.check_origin", replace_expr(lambda n: isinstance(n, ast.Attribute) and n.attr == "netloc", lambda n: ast.Attribute(value=n.value, attr="hostname", ctx=ast.Load()))), "C17.origin"),
     ("default origin check compares with a different header", _in("WebSocketHandler.check_origin", replace_expr(lambda n: isinstance(n, ast.Constant) and n.value == "Host", lambda n: ast.Constant(value="X-Forwarded-Host"))), "C17.origin"),
@@ -729,3 +823,15 @@ def _unguard_subprotocol(root):
             root.body[i : i + 1] = [x for x in st.body if not isinstance(x, ast.Assert)]
             return True
     return False
+
+
+def _origin_port_default(root):
+    keep = [st for st in root.body if isinstance(st, ast.Expr) and isinstance(st.value, ast.Constant)]
+    new = ast.parse(
+        "parsed_origin = urlparse(origin)\n"
+        "origin_host, origin_port = httputil.split_host_and_port(parsed_origin.netloc.lower())\n"
+        "host, port = httputil.split_host_and_port(self.request.headers.get('Host', '').lower())\n"
+        "return origin_host == host and (origin_port or port) == port\n"
+    ).body
+    root.body = keep + new
+    return True
